@@ -1,21 +1,3 @@
-import Mdsort.Bytes
-import Mdsort.Gen.Tables
-import Mdsort.Model.Decode
-import Mdsort.Spec.Decode
-import Mdsort.Model.Header
-import Mdsort.Model.Mime
-import Mdsort.Spec.Message
-import Mdsort.Spec.Mime
-import Mdsort.Model.Flags
-import Mdsort.Model.Time
-import Mdsort.Model.Eval
-import Mdsort.Spec.Rules
-import Mdsort.Spec.Interp
-import Mdsort.Spec.Flags
-import Mdsort.Spec.Time
-import Mdsort.Model.World
-import Mdsort.Model.Scripts
-import Mdsort.Model.Main
-import Mdsort.Model.Plan
-import Mdsort.Model.Inspect
-import Mdsort.Model.Lex
+-- Root of the library: everything (models, specifications, proofs, property theorems).
+-- `lake build Mdsort` (the setup command) therefore checks every proof; a check rebuilds only `Mdsort.Props.Cxx` and the driver.
+import Mdsort.All
